@@ -164,10 +164,23 @@ def run_variant(args: tuple) -> dict:
         if props:
             targets = [p for p in targets if p in props]
         evdir = os.path.join(scratch, "evidence")
+        import signal
+
+        def _alarm(*_):
+            raise TimeoutError("check timed out")
+
+        signal.signal(signal.SIGALRM, _alarm)
         for pid in targets:
             buf = io.StringIO()
-            with redirect_stdout(buf):
-                rc = run_property(pid, scratch, "quick", evidence_dir=evdir, quiet=True)
+            signal.alarm(40)
+            try:
+                with redirect_stdout(buf):
+                    rc = run_property(pid, scratch, "quick", evidence_dir=evdir, quiet=True)
+            except TimeoutError:
+                rc = 3
+                buf.write("ANALYSIS-ERROR TIMEOUT")
+            finally:
+                signal.alarm(0)
             out = buf.getvalue()
             fired = sorted({tok for line in out.splitlines() if line.startswith("  src/") for tok in line.split() if tok[:1] == "C" and "." in tok and tok[1:3].isdigit()})
             res["results"][pid] = {"exit": rc, "rules": fired}
